@@ -37,6 +37,9 @@ pub enum Sym {
     Raw(Vec<u8>, Gap),
     /// start talking while the station is still transmitting
     Collide(rc::RFrame),
+    /// several telegrams back to back (33 bit times apart) that the station sees in ONE poll: the
+    /// station is not polled until the last one is complete (a coarse poll schedule)
+    Burst(Vec<Vec<u8>>),
     Wait(WaitLen),
     SetOffline,
     SetOnline,
@@ -48,6 +51,7 @@ impl Sym {
             Sym::Tel(f, g) => format!("Tel[{} after {:?}]", f.short(), g),
             Sym::Raw(b, g) => format!("Raw[{} after {:?}]", hex(b), g),
             Sym::Collide(f) => format!("Collide[{}]", f.short()),
+            Sym::Burst(b) => format!("Burst[{}]", b.iter().map(|x| hex(x)).collect::<Vec<_>>().join(" | ")),
             Sym::Wait(w) => format!("Wait[{:?}]", w),
             Sym::SetOffline => "set_offline".into(),
             Sym::SetOnline => "set_online".into(),
@@ -58,6 +62,7 @@ impl Sym {
             Sym::Tel(f, g) => json!({"tel": hex(&rc::encode(f)), "gap": format!("{:?}", g)}),
             Sym::Raw(b, g) => json!({"raw": hex(b), "gap": format!("{:?}", g)}),
             Sym::Collide(f) => json!({"collide": hex(&rc::encode(f))}),
+            Sym::Burst(b) => json!({"burst": b.iter().map(|x| hex(x)).collect::<Vec<_>>()}),
             Sym::Wait(w) => json!({"wait": format!("{:?}", w)}),
             Sym::SetOffline => json!("set_offline"),
             Sym::SetOnline => json!("set_online"),
@@ -84,6 +89,9 @@ impl Sym {
         }
         if let Some(t) = v["collide"].as_str() {
             return Sym::Collide(frame(t));
+        }
+        if let Some(b) = v["burst"].as_array() {
+            return Sym::Burst(b.iter().map(|x| unhex(x.as_str().unwrap())).collect());
         }
         match v["wait"].as_str().unwrap() {
             "HalfSlot" => Sym::Wait(WaitLen::HalfSlot),
@@ -518,6 +526,33 @@ impl W2State {
                     if self.dead {
                         return true;
                     }
+                }
+                self.now += self.p_us;
+                self.poll();
+                true
+            }
+            Sym::Burst(parts) => {
+                // like Tel with a 33 bit gap, but the station is not polled between the telegrams
+                let e_us = self.bus.quiet_from_us();
+                let mut t_send = self.now.max(e_us + self.gap_us(Gap::G33));
+                let mark = self.bus.trace.len();
+                while self.now + self.p_us < t_send {
+                    self.now += self.p_us;
+                    self.poll();
+                    if self.dead || self.station_spoke_since(mark) {
+                        return true;
+                    }
+                }
+                for bytes in parts {
+                    self.peer_send(t_send, bytes, None);
+                    t_send = self.bus.quiet_from_us() + self.gap_us(Gap::G33);
+                }
+                let end_us = self.bus.quiet_from_us();
+                self.now = self.now.max(end_us);
+                self.now += self.p_us;
+                self.poll();
+                if self.dead {
+                    return true;
                 }
                 self.now += self.p_us;
                 self.poll();
